@@ -125,6 +125,45 @@ def read_events(path):
     return ev
 
 
+NOBODY = 54321          # a uid/gid without passwd entry
+_switch = None
+
+
+def _can_switch_user():
+    """only root can run the binary under another uid; probed once"""
+    global _switch
+    if _switch is None:
+        _switch = False
+        if os.geteuid() == 0:
+            try:
+                r = subprocess.run([BIN, '--version'], user=NOBODY, group=NOBODY, extra_groups=[], env={}, stdout=subprocess.PIPE,
+                                   stderr=subprocess.PIPE, timeout=60)
+                _switch = r.returncode == 0
+            except (OSError, subprocess.SubprocessError):
+                _switch = False
+    return _switch
+
+
+def _open_up(root):
+    """make a scratch tree usable by any uid"""
+    try:
+        if os.path.isfile(root):
+            os.chmod(root, 0o666)
+            return
+        for dp, dn, fn in os.walk(root):
+            os.chmod(dp, 0o777)
+            for f in fn:
+                p = os.path.join(dp, f)
+                if not os.path.islink(p):
+                    os.chmod(p, 0o666)
+                else:
+                    t = os.path.realpath(p)
+                    if os.path.isfile(t) and t.startswith(WORKROOT):
+                        os.chmod(t, 0o666)
+    except OSError:
+        pass
+
+
 def run_parser(datadir, cb, dump=None, coin=None, start=None, end=None, verify=False, env=None, trace=None,
                fsize=None, nofile=None, timeout=60, threads=None, verbose=0, read_files=True, extra_args=(), mkdump=True,
                abort_at=None, skip=None):
@@ -140,6 +179,9 @@ def run_parser(datadir, cb, dump=None, coin=None, start=None, end=None, verify=F
             verbose = (0, 0, 0, 1, 0, 0, 2)[amb % 7]
         if threads is None:
             threads = (None, None, 1, None, 3, None)[amb % 6]
+    bare = False
+    if os.environ.get('RBP_VERIF_NO_AMBIENT') is None and amb % 11 == 5 and fsize is None and nofile is None and abort_at is None:
+        bare = True            # the process environment is no input either: empty environment, uid without passwd entry
     args = [BIN, '-d', datadir]
     if coin:
         args += ['-c', coin]
@@ -174,8 +216,15 @@ def run_parser(datadir, cb, dump=None, coin=None, start=None, end=None, verify=F
         e['RBP_VERIF_ABORT_AT'] = str(abort_at)
     if skip:
         e['RBP_VERIF_SKIP'] = skip
+    if bare:
+        e = {k: v for k, v in e.items() if k.startswith('RBP_VERIF_') or k in ('RUST_BACKTRACE', 'RAYON_NUM_THREADS')}
     if env:
         e.update(env)
+    ids = {}
+    if bare and _can_switch_user():
+        for root in [datadir] + ([dump] if dump and os.path.isdir(dump) else []) + ([trace] if trace else []):
+            _open_up(root)
+        ids = {'user': NOBODY, 'group': NOBODY, 'extra_groups': []}
 
     def pre():
         if fsize is not None:
@@ -191,7 +240,7 @@ def run_parser(datadir, cb, dump=None, coin=None, start=None, end=None, verify=F
             # preexec_fn forces fork(); without it Python can use vfork/posix_spawn, which matters when the parent is large
             need_pre = fsize is not None or nofile is not None or abort_at is not None
             r = subprocess.run(args, env=e, stdout=subprocess.PIPE, stderr=subprocess.PIPE,
-                               preexec_fn=pre if need_pre else None, timeout=timeout)
+                               preexec_fn=pre if need_pre else None, timeout=timeout, **ids)
             rc, out, err = r.returncode, r.stdout, r.stderr
             break
         except subprocess.TimeoutExpired as ex:
